@@ -48,6 +48,7 @@ CODE_TEXT = {
 }
 
 FIXED = [
+    'width = 8\nvalue = 3.5\nprint(f"{value:{width}.2f}|{value!r:>{width}}", f"{f\'{width}\'}")\nprint(width)\n',
     "x = 1\ndef f(a, b=2, *c, **d):\n    y = a\n    return y + x\nf(1, b=x)\nprint(f(a=x, b=3))\n",
     ("class A:\n    y = 1\n    def __init__(self, v):\n        self.x = v\n        self.y = v\n    def m(self):\n"
      "        return self.x + self.y + A.y\nclass B(A):\n    def n(self):\n        return self.x\na = A(v=1)\n"
@@ -183,7 +184,18 @@ def replay(ctx, obj):
         a1, a3 = L.history_dependent(src, src.index(obj["first"][0]) + obj["first"][1],
                                      src.index(obj["other"][0]) + obj["other"][1])
         return a1 != a3
+    if obj.get("kind") == "sequence":
+        obs = L.observe_sequence(obj["files"], obj["lib2"])
+        files = dict(obj["files"])
+        files[L.LIBNAME] = obj["lib2"]
+        fresh = L.observe_project(files)
+        return obs is None or any(o.rope2[t.id] != fresh[p].rope2[t.id] for p, o in obs.items() for t in o.tokens)
     if obj.get("kind") == "project":
+        if obj.get("lib2"):
+            obs = L.observe_sequence(obj["files1"], obj["lib2"])
+            if obs is None:
+                return True
+            return bool(L.judge_project(obs)[0])
         obs = L.observe_project(obj["files"])
         if obs is None:
             return True
@@ -323,10 +335,47 @@ def check_projects(ctx, n):
         if obs is None:
             ctx.count("untranslatable:multi")
             continue
+        judge_and_report(ctx, files, obs, "multi")
+        if ctx.too_many():
+            return
+
+
+def check_sequences(ctx, n):
+    """a live project: all tokens queried, lib.py rewritten through the rope API (a definition the importer already
+    uses through `from lib import *` is added), all tokens queried again.  The answers after the edit are judged by
+    the oracle on the final text and compared with those of a freshly opened project."""
+    for _ in range(n):
+        g = c02_gen.gen_sequence(ctx.rng)
+        if g is None:
+            continue
+        files1, lib2 = g
+        obs = L.observe_sequence(files1, lib2)
+        if obs is None:
+            ctx.count("untranslatable:sequence")
+            continue
+        files = dict(files1)
+        files[L.LIBNAME] = lib2
+        fresh = L.observe_project(files)
+        stale = [(p, t.id) for p, o in obs.items() for t in o.tokens if o.rope2[t.id] != fresh[p].rope2[t.id]]
+        ctx.count("sequence_queries_after_edit", sum(len(o.tokens) for o in obs.values()))
+        if stale:
+            p, i = stale[0]
+            ctx.violation({"kind": "sequence", "files": files1, "lib2": lib2, "focus": "stale-after-edit",
+                           "module": p, "token": i, "live": obs[p].rope2[i], "fresh": fresh[p].rope2[i]},
+                          "after lib.py was rewritten through rope the live project answers differently from a freshly "
+                          "opened one (%s token %d: %d stale answers)" % (p, i, len(stale)))
+        else:
+            judge_and_report(ctx, files, obs, "sequence", extra={"files1": files1, "lib2": lib2})
+        if ctx.too_many():
+            return
+
+
+def judge_and_report(ctx, files, obs, stream, extra=None):
+    if True:
         if any(isinstance(r, str) for o in obs.values() for r in o.rope2.values()) \
                 and any(patchedast_fails(s) for s in files.values()):
-            ctx.count("patchedast-fails(C08):multi")
-            continue
+            ctx.count("patchedast-fails(C08):" + stream)
+            return
         paths = sorted(obs)
         for pth in paths:
             obs[pth].rope = {t.id: [] for t in obs[pth].tokens}      # not compared: only the reasons are used
@@ -334,11 +383,11 @@ def check_projects(ctx, n):
         results = coq_results(ctx, [obs[pth] for pth in paths])
         reasons = {pth: r[2] for pth, r in zip(paths, results)}
         if not all(r[3] for r in results):
-            ctx.count("skipped_outside_C15_fragment:multi")
-            continue
+            ctx.count("skipped_outside_C15_fragment:" + stream)
+            return
         ntok = sum(len(o.tokens) for o in obs.values())
         ctx.case(tuple(sorted(files.items())), nontrivial=True)
-        ctx.count("modules:multi", 2)
+        ctx.count("modules:" + stream, 2)
         ctx.count("queries", ntok)
         verdicts, keys = L.judge_project(obs)
         cross = sum(1 for o in obs.values() for r in o.rope2.values()
@@ -358,10 +407,16 @@ def check_projects(ctx, n):
                         b = obs[m].info.base_of.get(i)
                         if b is not None:
                             inv2.append((m, b))
-                    rs = sorted({reasons[m].get(i, 0) for (m, i) in inv2} - {0, 10})
+                    def reason_of(m, i):
+                        r = reasons[m].get(i, 0)
+                        k = keys.get((m, i))
+                        if r == 8 and isinstance(k, tuple) and k[0] in (L.LIBNAME, "module"):
+                            return 0        # this import resolves: the conflation of UNRESOLVED imports is no excuse
+                        return r
+                    rs = sorted({reason_of(m, i) for (m, i) in inv2} - {0, 10})
                     if rs:
                         focus = REASON_FOCUS.get(rs[0])
-                        if rs[0] == 3 and any(reasons[m].get(i) == 3 and class_env(obs[m], by_tok(obs[m], i)) for (m, i) in inv2):
+                        if rs[0] == 3 and any(reason_of(m, i) == 3 and class_env(obs[m], by_tok(obs[m], i)) for (m, i) in inv2):
                             focus = "header-class-attribute"
                 if focus is None and same_line_homonym(obs, keys, involved):
                     focus = "imported-name-same-line-homonym"
@@ -380,17 +435,15 @@ def check_projects(ctx, n):
                 continue
             seen.add(focus)
             if focus is None:
-                ctx.violation({"kind": "project", "files": files, "focus": "unexplained", "verdict": v},
-                              "two-module project: rope's occurrences differ from the binding map of the oracle (%s, %s token %r, %r)"
+                ctx.violation(dict(extra or {}, kind="project", files=files, focus="unexplained", verdict=v, stream=stream),
+                              "two-module project (" + stream + "): rope's occurrences differ from the binding map of the oracle (%s, %s token %r, %r)"
                               % (v["kind"], v["module"], v["query"], v.get("tokens")))
             elif focus.startswith("inherited:"):
                 ctx.count(focus)
             else:
                 ctx.violation({"kind": "project" if focus == "imported-name-same-line-homonym" else "module",
-                               "files": files, "src": files["mod_under_test.py"], "focus": focus, "stream": "multi"},
+                               "files": files, "src": files["mod_under_test.py"], "focus": focus, "stream": stream},
                               "known departure: " + focus)
-        if ctx.too_many():
-            return
 
 
 def same_line_homonym(obs, keys, involved):
@@ -454,6 +507,8 @@ def run(ctx):
     batch(lambda: c15_gen.gen_module(rng, ()), n_c15, "c15")
     if not ctx.too_many():
         check_projects(ctx, ctx.scale(25, 200))
+    if not ctx.too_many():
+        check_sequences(ctx, ctx.scale(12, 100))
     ctx.extra["streams"] = {"main": n_main, "plus": n_plus, "c15": n_c15, "fixed": len(fixed)}
     ctx.assumptions.append("imports never resolve (one-module scratch project); keyword arguments and attributes are "
                            "compared with the model only where no type inference is involved")
